@@ -299,7 +299,7 @@ var e2eIDs struct {
 }
 
 // startE2E starts fakes and a real DbSyncer.Sync(). srv may be pre-populated (resume scenarios).
-func startE2E(cfg *e2eCfg, sc fakesource.Script, srv *miniredis.Server, recordBytes bool) (*e2eRun, error) {
+func startE2E(cfg *e2eCfg, sc fakesource.Script, srv *miniredis.Server, recordBytes bool, before ...func(e *e2eRun)) (*e2eRun, error) {
 	src, err := fakesource.New(sc, e2eSrcPw)
 	if err != nil {
 		return nil, err
@@ -327,6 +327,9 @@ func startE2E(cfg *e2eCfg, sc fakesource.Script, srv *miniredis.Server, recordBy
 	e2eIDs.Unlock()
 	node := &slot.SyncNode{Id: id, Source: src.Addr, SourcePassword: e2eSrcPw, Target: []string{tcp.Addr}, TargetPassword: e2eTgtPw, SlotLeftBoundary: -1, SlotRightBoundary: -1}
 	e.Ds = dbSync.NewDbSyncer(node, 9320, semaphore.NewWeighted(64))
+	for _, f := range before {
+		f(e)
+	}
 	go e.Ds.Sync()
 	return e, nil
 }
